@@ -68,7 +68,54 @@ type c04Program struct {
 	Scripts  [][]c04Op `json:"goroutines"`
 }
 
-var c04Fronts = []string{"info", "log", "check", "sugarw", "sugarf", "sugarln", "sugar", "child-with", "child-named", "child-lazy", "stdlog", "zapio"}
+var c04Fronts = []string{"info", "log", "check", "sugarw", "sugarf", "sugarln", "sugar", "child-with", "child-named", "child-lazy", "stdlog", "zapio",
+	"reflect", "reflect", "errors", "object", "child-reflect", "shared-reflect", "shared-reflect"}
+
+// c04Obj is a nested marshaler carrying its goroutine and a padding.
+type c04Obj struct {
+	g   int
+	pad string
+}
+
+func (o c04Obj) MarshalLogObject(enc zapcore.ObjectEncoder) error {
+	enc.AddInt("og", o.g)
+	enc.AddString("op", o.pad)
+	return enc.AddArray("arr", zapcore.ArrayMarshalerFunc(func(a zapcore.ArrayEncoder) error {
+		a.AppendInt(o.g)
+		return a.AppendReflected(map[string]int{"og": o.g})
+	}))
+}
+
+// c04CheckOwner walks a decoded context and fails if a value that names its
+// goroutine ("g", "og", "rg") or a padding ("rp", "op") belongs to another
+// goroutine than the entry's token says.
+func c04CheckOwner(n *xnode, g int) string {
+	if n == nil {
+		return ""
+	}
+	letter := string(rune('a' + g%26))
+	for _, kv := range n.kids {
+		switch kv.k {
+		case "g", "og", "rg":
+			if kv.v.kind == "num" && kv.v.s != strconv.Itoa(g) {
+				return fmt.Sprintf("value %q=%s on the entry of goroutine %d", kv.k, kv.v.s, g)
+			}
+		case "rp", "op", "ep":
+			if kv.v.kind == "str" && strings.Trim(kv.v.s, letter) != "" {
+				return fmt.Sprintf("padding %q=%q on the entry of goroutine %d", kv.k, clipS(kv.v.s), g)
+			}
+		}
+		if e := c04CheckOwner(kv.v, g); e != "" {
+			return e
+		}
+	}
+	for _, el := range n.els {
+		if e := c04CheckOwner(el, g); e != "" {
+			return e
+		}
+	}
+	return ""
+}
 
 func c04Token(g, seq, pad int) string {
 	return fmt.Sprintf("tok:%d:%d:%d:%s", g, seq, pad, strings.Repeat(string(rune('a'+g%26)), pad))
@@ -131,7 +178,9 @@ func c04Run(t interface{ Fatalf(string, ...any) }, p *c04Program) (alternations 
 	old := runtime.GOMAXPROCS(p.Procs)
 	defer runtime.GOMAXPROCS(old)
 	// metadata columns that differ per goroutine (logger name) and per front end (level)
-	jcfg := zapcore.EncoderConfig{NameKey: "n", LevelKey: "l", MessageKey: "m", EncodeLevel: zapcore.CapitalLevelEncoder}
+	// (the layout time encoder and the short caller encoder take nested pooled buffers while the line is being built)
+	jcfg := zapcore.EncoderConfig{TimeKey: "t", NameKey: "n", LevelKey: "l", CallerKey: "c", MessageKey: "m", EncodeLevel: zapcore.CapitalLevelEncoder,
+		EncodeTime: zapcore.RFC3339NanoTimeEncoder, EncodeCaller: zapcore.ShortCallerEncoder}
 	var streams []*c04Stream
 	var core zapcore.Core
 	var closers []func()
@@ -176,8 +225,9 @@ func c04Run(t interface{ Fatalf(string, ...any) }, p *c04Program) (alternations 
 			zapcore.NewCore(zapcore.NewConsoleEncoder(jcfg), bws, zapcore.DebugLevel),
 		)
 	}
-	lg := zap.New(core)
-	shared := lg.With(zap.String("shared", "ctx"))
+	lg := zap.New(core, zap.AddCaller())
+	// the shared context carries a reflected value: every derived encoder starts from one that has used its reflection buffer
+	shared := lg.With(zap.String("shared", "ctx"), zap.Reflect("rctx", map[string]int{"r": 1}))
 	want := make([]int, len(p.Scripts))
 	var wg sync.WaitGroup
 	var panics atomic.Value
@@ -221,6 +271,18 @@ func c04Run(t interface{ Fatalf(string, ...any) }, p *c04Program) (alternations 
 					mine.Named("n").Sugar().With("k", seq).Warnw(tok)
 				case "child-lazy":
 					mine.WithLazy(zap.Int("lz", seq)).Info(tok)
+				case "reflect":
+					mine.Info(tok, zap.Reflect("rv", map[string]any{"rg": g, "rp": strings.Repeat(string(rune('a'+g%26)), o.Pad)}), zap.Int("seq", seq))
+				case "shared-reflect":
+					// Named does not clone the core: every goroutine encodes through the SAME context encoder (which holds a reflected field)
+					shared.Named(fmt.Sprintf("g%d", g)).Info(tok, zap.Int("g", g), zap.Reflect("rv", map[string]any{"rg": g, "rp": strings.Repeat(string(rune('a'+g%26)), o.Pad)}))
+				case "child-reflect":
+					mine.With(zap.Reflect("cr", map[string]any{"rg": g})).Warn(tok, zap.Reflect("rv", []any{map[string]int{"rg": g}}))
+				case "errors":
+					pad := strings.Repeat(string(rune('a'+g%26)), o.Pad%97)
+					mine.Error(tok, zap.Errors("errs", []error{fmt.Errorf("%s", pad), nil, verboseErr{pad}}), zap.NamedError("ep", fmt.Errorf("%s", pad)))
+				case "object":
+					mine.Info(tok, zap.Object("obj", c04Obj{g, strings.Repeat(string(rune('a'+g%26)), o.Pad)}), zap.Objects("objs", []c04Obj{{g, ""}, {g, "x"[:0]}}))
 				case "stdlog":
 					std.Print(tok)
 				case "zapio":
@@ -287,14 +349,23 @@ func c04Run(t interface{ Fatalf(string, ...any) }, p *c04Program) (alternations 
 			var msg string
 			var name, level string
 			if st.console {
-				cols := strings.SplitN(string(ln), "\t", 4)
-				if len(cols) < 3 {
-					t.Fatalf("%s: line %d does not have level, name and message columns: %q", st.name, li, clipS(string(ln)))
+				cols := strings.SplitN(string(ln), "\t", 6)
+				if len(cols) < 5 {
+					t.Fatalf("%s: line %d does not have time, level, name, caller and message columns: %q", st.name, li, clipS(string(ln)))
 				}
-				level, name, msg = cols[0], cols[1], cols[2]
-				if len(cols) == 4 {
-					if why, _ := checkJSONLine([]byte(cols[3]), ""); why != "" {
+				level, name, msg = cols[1], cols[2], cols[4]
+				if _, err := time.Parse(time.RFC3339Nano, cols[0]); err != nil {
+					t.Fatalf("%s: line %d: time column corrupted: %q", st.name, li, clipS(string(ln)))
+				}
+				if len(cols) == 6 {
+					why, n := checkJSONLine([]byte(cols[5]), "")
+					if why != "" {
 						t.Fatalf("%s: line %d: console context corrupted: %s: %q", st.name, li, why, clipS(string(ln)))
+					}
+					if g, _, err := c04ParseToken(msg); err == nil {
+						if e := c04CheckOwner(n, g); e != "" {
+							t.Fatalf("%s: line %d: %s: %q", st.name, li, e, clipS(string(ln)))
+						}
 					}
 				}
 			} else {
@@ -312,10 +383,15 @@ func c04Run(t interface{ Fatalf(string, ...any) }, p *c04Program) (alternations 
 						level = kv.v.s
 					}
 				}
+				if g, _, err := c04ParseToken(msg); err == nil {
+					if e := c04CheckOwner(n, g); e != "" {
+						t.Fatalf("%s: line %d: %s: %q", st.name, li, e, clipS(string(ln)))
+					}
+				}
 				for _, kv := range n.kids {
-					if kv.k == "g" && kv.v.kind == "num" {
-						if g, _, err := c04ParseToken(msg); err == nil && strconv.Itoa(g) != kv.v.s {
-							t.Fatalf("%s: line %d: fields of goroutine %s on the entry of goroutine %d: %q", st.name, li, kv.v.s, g, clipS(string(ln)))
+					if kv.k == "t" {
+						if _, err := time.Parse(time.RFC3339Nano, kv.v.s); err != nil {
+							t.Fatalf("%s: line %d: time value corrupted: %q", st.name, li, clipS(string(ln)))
 						}
 					}
 				}
